@@ -833,7 +833,7 @@ AST2ASTSLEAF = {  # convert a possibly non-leaf AST to a frozenset of all the le
     _withitems:         frozenset([_withitems]),
     _pattern_attrlikes: frozenset([_pattern_attrlikes]),
     _type_params:       frozenset([_type_params]),
-    mod:                ASTS_LEAF_MOD,
+    mod:                ASTS_LEAF_MOD | {FunctionType},  # FunctionType is a mod but not in ASTS_LEAF_MOD
     stmt:               ASTS_LEAF_STMT,
     expr:               ASTS_LEAF_EXPR,
     expr_context:       ASTS_LEAF_EXPR_CONTEXT,
